@@ -1,0 +1,21 @@
+//go:build verif
+
+package text
+
+// Verification hooks, only compiled with the verif build tag.
+
+func VerifTermKey(term string) []byte {
+	return termKey(term)
+}
+
+func VerifDocumentKey(id uint64) []byte {
+	return documentKey(id)
+}
+
+func VerifTermFromKey(key []byte) (string, bool) {
+	return (&setCacheItem{}).IdFromKey(key)
+}
+
+func VerifDocIdFromKey(key []byte) (uint64, bool) {
+	return docCacheItem{}.IdFromKey(key)
+}
